@@ -1,87 +1,113 @@
 #!/bin/bash
-# tools/seed_eval.sh <rt-id> <n> <PROP> [fullsuite]
+# tools/seed_eval.sh <rt-id> <n> <PROP> [fullsuite]        (env PHASE=A|B|AB, default AB)
 # Takes a red-team change /tmp/rt_<rt-id>/out/<n>, stores it as /verif/seeded/<PROP>-<rt-id>-<n>/ and confirms
-#  (a) the patch applies, builds and (optionally) passes the whole repository suite,
-#  (b) the demonstration fails with the change and passes without it,
-#  (c) whether ./check <PROP> quick (and, if missed, thorough) raises a VIOLATION with the change applied to /repo.
+#  phase A (scratch worktree only, safe to run several at once):
+#    the patch applies and builds, the demonstration fails with the change and passes without it, the tests of the
+#    touched packages and of internal/dmap pass with it (optionally the whole suite);
+#  phase B (uses /repo, one at a time):
+#    whether ./check <PROP> quick (and, if missed, thorough) raises a VIOLATION with the change applied to /repo.
 # Writes meta.json. /repo is restored afterwards; the scratch worktree is removed.
 set -u
 RT=$1; N=$2; PROP=$3; FULL=${4:-}
+PHASE=${PHASE:-AB}
 SRC=/tmp/rt_$RT/out/$N
 DST=/verif/seeded/$PROP-$RT-$N
 export GOFLAGS=-mod=mod GOPROXY=off GOSUMDB=off GOTOOLCHAIN=local
-[ -f "$SRC/patch.diff" ] || { echo "no patch in $SRC"; exit 2; }
 mkdir -p "$DST"
-cp "$SRC/patch.diff" "$DST/patch.diff"
-for f in "$SRC"/*_test.go "$SRC"/NOTES.md "$SRC"/*.go; do [ -f "$f" ] && cp "$f" "$DST/"; done
-[ -d "$SRC/demo" ] && cp -r "$SRC/demo" "$DST/"
-W=/tmp/sv_${PROP}_${RT}_${N}
-git -C /repo worktree remove --force "$W" 2>/dev/null; rm -rf "$W"
-git -C /repo worktree add -q --detach "$W" HEAD
+if [ -f "$SRC/patch.diff" ]; then
+  cp "$SRC/patch.diff" "$DST/patch.diff"
+  for f in "$SRC"/*_test.go "$SRC"/NOTES.md "$SRC"/*.go; do [ -f "$f" ] && cp "$f" "$DST/"; done
+  [ -d "$SRC/demo" ] && cp -r "$SRC/demo" "$DST/"
+  for f in "$SRC"/full*suite*.log "$SRC"/fullsuite.log; do [ -f "$f" ] && cp "$f" "$DST/redteam_full_suite.log"; done
+fi
+[ -f "$DST/patch.diff" ] || { echo "no patch for $PROP-$RT-$N"; exit 2; }
 res_build=fail; res_demo_with=unknown; res_demo_without=unknown; res_pkgs=unknown; res_full=skipped
 demos=$(ls "$DST"/*_test.go 2>/dev/null)
-run_demo() { # runs every demo test file in its package; echo pass|fail
-  local out=pass
-  for d in $demos; do
-    pkg=$(grep -m1 '^package ' "$d" | awk '{print $2}')
-    case "$pkg" in
-      olric|olric_test) dir=. ;;
-      *) dir=$(cd "$W" && grep -rl --include=*.go "^package $pkg\$" internal pkg config 2>/dev/null | head -1 | xargs dirname) ;;
-    esac
-    [ -z "$dir" ] && { echo "nodir"; return; }
-    cp "$d" "$W/$dir/"
-    tests=$(grep -o '^func Test[A-Za-z0-9_]*' "$d" | sed 's/func //' | paste -sd'|')
-    if ! (cd "$W" && timeout 600 go test -count=1 -timeout 9m -run "^($tests)\$" "./$dir" > "$DST/.demo.log" 2>&1); then out=fail; fi
-    rm -f "$W/$dir/$(basename "$d")"
-  done
-  echo $out
-}
-# --- without the change
-res_demo_without=$(run_demo)
-# --- with the change
-if git -C "$W" apply "$DST/patch.diff" 2>/dev/null && (cd "$W" && go build ./... 2>"$DST/.build.log"); then
-  res_build=ok
-  res_demo_with=$(run_demo)
-  cp "$DST/.demo.log" "$DST/demo_with_change.log" 2>/dev/null
-  pkgs=$(git -C "$W" diff --name-only | xargs -n1 dirname | sort -u | sed 's#^#./#' | tr '\n' ' ')
-  if (cd "$W" && go test -count=1 -timeout 20m $pkgs ./internal/dmap/ > "$DST/.pkgs.log" 2>&1); then res_pkgs=pass; else
-     # timing-sensitive cluster tests: one retry
-     if (cd "$W" && go test -count=1 -timeout 20m $pkgs ./internal/dmap/ > "$DST/.pkgs.log" 2>&1); then res_pkgs=pass-on-retry; else res_pkgs="fail: $(grep -E '^--- FAIL' "$DST/.pkgs.log" | head -3 | tr '\n' ' ')"; fi
+
+if [[ "$PHASE" == *A* ]]; then
+  W=/tmp/sv_${PROP}_${RT}_${N}
+  git -C /repo worktree remove --force "$W" 2>/dev/null; rm -rf "$W"
+  git -C /repo worktree add -q --detach "$W" HEAD
+  run_demo() { # runs every demo test file in its package; echo pass|fail
+    local out=pass
+    for d in $demos; do
+      pkg=$(grep -m1 '^package ' "$d" | awk '{print $2}')
+      case "$pkg" in
+        olric|olric_test) dir=. ;;
+        *) dir=$(cd "$W" && grep -rl --include=*.go "^package $pkg\$" internal pkg config 2>/dev/null | head -1 | xargs dirname) ;;
+      esac
+      [ -z "$dir" ] && { echo "nodir"; return; }
+      cp "$d" "$W/$dir/"
+      tests=$(grep -o '^func Test[A-Za-z0-9_]*' "$d" | sed 's/func //' | paste -sd'|')
+      if ! (cd "$W" && timeout 900 go test -count=1 -timeout 14m -run "^($tests)\$" "./$dir" > "$DST/.demo.log" 2>&1); then out=fail; fi
+      rm -f "$W/$dir/$(basename "$d")"
+    done
+    echo $out
+  }
+  res_demo_without=$(run_demo)
+  if git -C "$W" apply "$DST/patch.diff" 2>/dev/null && (cd "$W" && go build ./... 2>"$DST/.build.log"); then
+    res_build=ok
+    res_demo_with=$(run_demo)
+    cp "$DST/.demo.log" "$DST/demo_with_change.log" 2>/dev/null
+    pkgs=$(git -C "$W" diff --name-only | xargs -n1 dirname | sort -u | sed 's#^#./#' | tr '\n' ' ')
+    res_pkgs="fail"
+    for attempt in 1 2 3; do   # timing-sensitive cluster tests on a loaded machine: up to two retries
+      if (cd "$W" && go test -count=1 -timeout 20m $pkgs ./internal/dmap/ > "$DST/.pkgs.log" 2>&1); then
+        res_pkgs=pass; [ $attempt -gt 1 ] && res_pkgs="pass-on-attempt-$attempt"; break
+      fi
+      res_pkgs="fail: $(grep -E '^--- FAIL' "$DST/.pkgs.log" | head -3 | tr '\n' ' ')"
+    done
+    if [ -n "$FULL" ]; then
+      if (cd "$W" && go test -vet=off -count=1 -timeout 25m ./... > "$DST/.full.log" 2>&1); then res_full=pass; else res_full="fail: $(grep -E '^--- FAIL' "$DST/.full.log" | head -4 | tr '\n' ' ')"; fi
+    fi
   fi
-  if [ -n "$FULL" ]; then
-    if (cd "$W" && go test -vet=off -count=1 -timeout 25m ./... > "$DST/.full.log" 2>&1); then res_full=pass; else res_full="fail: $(grep -E '^--- FAIL' "$DST/.full.log" | head -4 | tr '\n' ' ')"; fi
-  fi
+  git -C /repo worktree remove --force "$W" 2>/dev/null; rm -rf "$W"
+  {
+    echo "res_build=\"$res_build\""; echo "res_demo_with=\"$res_demo_with\""; echo "res_demo_without=\"$res_demo_without\""
+    echo "res_pkgs=\"$res_pkgs\""; echo "res_full=\"$res_full\""
+  } > "$DST/.confirm"
+  rm -f "$DST"/.demo.log "$DST"/.build.log
 fi
-git -C /repo worktree remove --force "$W" 2>/dev/null; rm -rf "$W"
+if [[ "$PHASE" != *B* ]]; then
+  echo "$PROP rt-$RT/$N phaseA build=$res_build demo(without/with)=$res_demo_without/$res_demo_with pkgs=$res_pkgs full=$res_full"
+  exit 0
+fi
+[ -f "$DST/.confirm" ] && . "$DST/.confirm"
+
 # --- the checks
-caught=no; tier=quick; keys=""
-if [ "$res_build" = ok ] && git -C /repo diff --quiet && git -C /repo apply --check "$DST/patch.diff" 2>/dev/null; then
+caught=no; keys=""
+rm -f "$DST"/check_quick.log "$DST"/check_thorough.log
+if git -C /repo diff --quiet && git -C /repo apply --check "$DST/patch.diff" 2>/dev/null; then
   git -C /repo apply "$DST/patch.diff"
   (cd /verif && ./check "$PROP" quick > "$DST/check_quick.log" 2>&1)
   if grep -q "^VIOLATION property=$PROP" "$DST/check_quick.log"; then caught=quick; else
-    (cd /verif && ./check "$PROP" thorough > "$DST/check_thorough.log" 2>&1)
+    (cd /verif && timeout 2400 ./check "$PROP" thorough > "$DST/check_thorough.log" 2>&1)
     if grep -q "^VIOLATION property=$PROP" "$DST/check_thorough.log"; then caught=thorough; fi
   fi
-  keys=$(grep -h "^VIOLATION property=$PROP" "$DST"/check_*.log 2>/dev/null | grep -o 'key="[^"]*"' | head -3 | tr '\n' ' ' | sed 's/"/\\"/g')
+  keys=$(grep -h "^VIOLATION property=$PROP" "$DST"/check_*.log 2>/dev/null | grep -o 'key="[^"]*"' | sort | uniq -c | sort -rn | head -3 | awk '{$1="";print}' | tr '\n' ' ' | sed 's/\\/\\\\/g; s/"/\\"/g')
   git -C /repo checkout -- . ; git -C /repo clean -fdq
+else
+  caught="not-run: /repo dirty or the patch does not apply"
 fi
-rm -f "$DST"/.demo.log "$DST"/.build.log
-trigger=$(grep -i -m1 -A3 'trigger\|manifest\|needs' "$DST/NOTES.md" 2>/dev/null | tr '\n' ' ' | cut -c1-400 | sed 's/"/\\"/g')
+# keep only the verdict lines of the check logs
+for l in "$DST"/check_*.log; do [ -f "$l" ] && grep -E "^(VIOLATION|KNOWN-FINDING|SUMMARY)" "$l" | cut -c1-600 | head -40 > "$l.tmp" && mv "$l.tmp" "$l"; done
+trigger=$(grep -i -m1 -A3 'what is needed\|needed to\|trigger\|manifest' "$DST/NOTES.md" 2>/dev/null | tr '\n' ' ' | cut -c1-500 | sed 's/\\/\\\\/g; s/"/\\"/g; s/\t/ /g')
 cat > "$DST/meta.json" <<EOF
 {
  "property": "$PROP",
- "source": "independent red-team sub-agent rt-$RT, change $N (given only the property text and a scratch worktree)",
- "needs_to_manifest": "$trigger",
+ "source": "independent red-team sub-agent rt-$RT, change $N (given only the property text and a scratch worktree of /repo)",
+ "needs_to_manifest": "$trigger (see NOTES.md)",
  "confirmed_by_me": {
    "applies_and_builds": "$res_build",
    "demonstration_without_change": "$res_demo_without",
    "demonstration_with_change": "$res_demo_with",
    "tests_of_touched_packages_and_internal_dmap_with_change": "$res_pkgs",
-   "full_suite_with_change": "$res_full"
+   "full_suite_with_change": "$res_full (the red-team agent's own full-suite log, where it kept one, is redteam_full_suite.log)"
  },
- "what_i_ran": "tools/seed_eval.sh $RT $N $PROP $FULL : scratch worktree, git apply, go build ./..., demo with/without, package tests; then git -C /repo apply + ./check $PROP quick (thorough if missed) + git checkout",
+ "what_i_ran": "tools/seed_eval.sh $RT $N $PROP: scratch worktree of /repo HEAD, git apply, go build ./..., demonstration with/without the change, go test of the touched packages and internal/dmap; then git -C /repo apply + ./check $PROP quick (thorough if quick missed) + git -C /repo checkout -- .",
  "caught_by": "$caught",
  "finding_keys": "$keys"
 }
 EOF
+python3 -c "import json,sys; json.load(open('$DST/meta.json'))" 2>/dev/null || echo "WARNING: meta.json of $DST is not valid JSON"
 echo "$PROP rt-$RT/$N build=$res_build demo(without/with)=$res_demo_without/$res_demo_with pkgs=$res_pkgs full=$res_full caught=$caught"
